@@ -105,8 +105,17 @@ def oracle(case):
     return None
 
 
+def has_input_with_operands(case):
+    return any(t == 'INPUT' and ops for _, t, ops in case['start']['gates']) or \
+        any(o[0] == 'emplace' and o[2] == 'INPUT' and o[3] for o in case['ops'])
+
+
 def classify(case, msg):
     import re
+    if has_input_with_operands(case):
+        # INPUT gates carrying operands are a recorded degenerate case (DESIGN 6.4 D24)
+        m = re.match(r'after call \d+ \((\w+)\)', msg)
+        return 'input-with-operands:' + (m.group(1) if m else msg.split(':')[0])
     m = re.match(r'after call \d+ \((\w+)\): (users of|the operand graph|top_sort|users index|input list|operand|output|block|gate stored)', msg)
     if m:
         return f'{m.group(1)}:{m.group(2)}'
